@@ -20,7 +20,13 @@ def fam(QH, QL, tiers):
       canaries=2, extra=("msg_queue_extract.0:5",)),
     Q("time_peek", "h_time_peek", "result <= timestamp of every queued message; SIMTIME_MAX iff empty; nothing lost", QH, QL, tiers),
     ]
-HARNESSES = fam(3, 2, ("quick",)) + fam(4, 3, ("thorough",)) + [
+def heapint(hn, tiers, to):
+    uw = tuple(["heap_ok.0:17", "occurrences.0:17", "w_insert.0:3", "w_insert.1:6", "w_extract.0:6"] + [f"{e}.{k}:18" for e in ("h_heap_insert", "h_heap_extract") for k in range(4)])
+    return [H(name=f"C15.heap_insert.int{hn}", file="harness/c15_heap_int.c", entry="h_heap_insert", funcs=["heap_insert"], kind="bounded", bound=f"integer-keyed heaps of up to {hn} elements (all shapes, ties allowed)",
+              defs=(f"HN={hn}",), unwindset=uw, tiers=tiers, timeout=to, canaries=2, desc="heap_insert keeps the heap order, adds exactly the element, loses nothing"),
+            H(name=f"C15.heap_extract.int{hn}", file="harness/c15_heap_int.c", entry="h_heap_extract", funcs=["heap_extract"], kind="bounded", bound=f"integer-keyed heaps of up to {hn} elements (all shapes, ties allowed)",
+              defs=(f"HN={hn}",), unwindset=uw, tiers=tiers, timeout=to, canaries=3, desc="heap_extract returns a minimum, keeps the heap order, removes exactly that element")]
+HARNESSES = heapint(11, ("quick",), 900) + heapint(14, ("thorough",), 3600) + fam(3, 2, ("quick",)) + fam(4, 3, ("thorough",)) + [
     H(name="C15.insert.interference", file=F, entry="h_insert_interference", enforce=None, funcs=["msg_queue_insert"], defs=("Q_INTERFERENCE", "QPL=0"),
       loops=True, expect_loops=1, kind="proof", unwindset=("mk.0:2", "memcmp.0:9"), timeout=600, canaries=2,
       desc="CAS push under arbitrary interference on the list head (atomics replaced by rely/guarantee stubs, retry loop closed by a loop contract): on return the head is msg and msg->next is the head it replaced; queue index in bounds (lps<=64, threads<=4 for the index arithmetic)"),
